@@ -1,17 +1,64 @@
-import PkgModel.Version
+import PkgProofs.Lemmas.ScanTrim
+import PkgProofs.Props.C01
 /-!
 # C02 — Version components and normal forms are faithful and canonical
+
+Model: `V.scan` (the hand-written scanner for `Version._regex` + `Version.__init__`), `Ver.str`,
+`Ver.public`, `Ver.base`, `trimRelease` (`_TrimmedRelease`), `Ver.canon` / `canonicalizeVersion`
+(`packaging.utils.canonicalize_version`, both dispatch arms, including the re-parse of `str(version)`).
+
+`WF v` (`PkgProofs/Lemmas/ScanBasic.lean`) is the explicit, decidable predicate of the values the
+scanner can produce (`scan_wf`); all round-trip theorems hold for every such value — unbounded
+release length, component magnitude and local label.
 -/
 namespace C02
 open V Py
 
-/-- non-versions are returned unchanged, whatever the flag -/
-theorem canon_passthrough (s : Str) (b : Bool) (h : scan s = none) : canonicalizeVersion s b = some s := by
-  simp [canonicalizeVersion, h]
+/-! ### 1. `str` is a normal form: it scans back to the same components -/
 
-/-- with `strip_trailing_zero=False` the canonical form is `str(Version(s))` -/
-theorem canon_nostrip_eq_str (s : Str) (v : Ver) (h : scan s = some v) :
-    canonicalizeVersion s false = some v.str := by
-  simp [canonicalizeVersion, h, Ver.canon]
+/-- everything `Version(s)` produces is well formed -/
+theorem scan_wf (s : Str) (v : Ver) (h : scan s = some v) : WF v := V.scan_wf s v h
+
+/-- **`Version(str(v))` has identical components**, for every well-formed `v` -/
+theorem scan_str (v : Ver) (h : WF v) : scan v.str = some v := V.scan_str v h
+
+/-- `str` is injective on well-formed values: different components never render alike -/
+theorem str_inj (v w : Ver) (hv : WF v) (hw : WF w) (h : v.str = w.str) : v = w := by
+  have h1 := scan_str v hv
+  rw [h, scan_str w hw] at h1
+  exact (Option.some.inj h1).symm
+
+/-- parsing `str(Version(s))` again gives identical components and the same string -/
+theorem str_idempotent (s : Str) (v : Ver) (h : scan s = some v) :
+    scan v.str = some v ∧ ∀ w, scan v.str = some w → w.str = v.str := by
+  have := scan_str v (scan_wf s v h)
+  refine ⟨this, fun w hw => ?_⟩
+  rw [this] at hw; rw [← Option.some.inj hw]
+
+/-- the value read from `Version.public` -/
+def noLocal (v : Ver) : Ver := { v with loc := none }
+/-- the value read from `Version.base_version` -/
+def baseOnly (v : Ver) : Ver := { epoch := v.epoch, release := v.release, pre := none, post := none, dev := none, loc := none }
+
+theorem public_eq_str_noLocal (v : Ver) : v.public = (noLocal v).str := by
+  rw [str_eq, public_eq]; simp [noLocal, locS, Ver.base]
+
+theorem base_eq_str_baseOnly (v : Ver) : v.base = (baseOnly v).str := by
+  rw [str_eq]; simp [baseOnly, locS, preS, postS, devS, Ver.base]
+
+/-- `Version(v.public)` is `v` without its local label -/
+theorem scan_public (v : Ver) (h : WF v) : scan v.public = some { v with loc := none } := by
+  rw [public_eq_str_noLocal]
+  apply scan_str
+  simp only [WF, Ver.wf, Bool.and_eq_true] at h ⊢
+  exact ⟨h.1, rfl⟩
+
+/-- `Version(v.base_version)` keeps exactly epoch and release -/
+theorem scan_base (v : Ver) (h : WF v) :
+    scan v.base = some { epoch := v.epoch, release := v.release, pre := none, post := none, dev := none, loc := none } := by
+  rw [base_eq_str_baseOnly]
+  apply scan_str
+  simp only [WF, Ver.wf, Bool.and_eq_true] at h ⊢
+  exact ⟨h.1, rfl⟩
 
 end C02
